@@ -153,7 +153,17 @@ def run(ctx):
     hs = [h for n in A.body_walk(ma.node) if isinstance(n, ast.Try) for h in n.handlers]
     km = M.one(ma.node, "$kill = threading.Event()")
     ctx.check("R4", ma, km is not None and any(M.has(h.body, "$kill.set()\nraise", km.env) for h in hs), "feed-failure-stops-workers", "a failing feed sets the kill flag and re-raises (after the finally woke and joined the workers)")
-    ctx.floor("R4", 5)
+    # the abort flag belongs to the feeder: a worker that sets it (because its own item failed) makes every healthy worker
+    # leave its feed after the current item, and whatever is still queued is never handed out
+    if km is not None:
+        setters = [c for c in A.calls(ma.node, into_nested=True) if A.unparse(c.func) == f"{km['kill']}.set"]
+        nested = [d for d in ast.walk(ma.node) if isinstance(d, (ast.FunctionDef, ast.Lambda)) and d is not ma.node]
+        for c in setters:
+            inside = next((d for d in nested if A.contains_node(d, c)), None)
+            ctx.check("R4", ma, inside is None, f"abort-flag-set-by-worker:{getattr(inside, 'name', 'lambda')}", "the abort flag is set by the feeding code only",
+                      f"`{A.unparse(c)}` inside `{getattr(inside, 'name', 'lambda')}` (code run by the worker threads): one failing item stops every other worker after its current item, "
+                      f"and the items still queued are silently never processed", node=c)
+    ctx.floor("R4", 6)
 
     # ---- R6 one failing package does not retire the worker thread ----------------------------------------------------
     G.per_item_isolation(ctx, "R6", "pkgcore.operations.regen", "regen_iter", lambda c: isinstance(c.func, ast.Name) and c.func.id == P.func("pkgcore.operations.regen", "regen_iter").params()[1], "package")
@@ -182,4 +192,8 @@ MUTANTS = [
 ]
 TWINS = [
     {"name": "local-object-marker", "file": F, "old": "    kill.clear()\n", "new": "    kill.clear()\n    _sentinel = object()\n"},
+]
+
+MUTANTS += [
+    {"name": "worker-sets-abort-flag-on-failure", "file": F, "old": "        result = functor(*args)\n", "new": "        try:\n            result = functor(*args)\n        except Exception:\n            kill.set()\n            raise\n", "rule": "R4"},
 ]
